@@ -22,6 +22,21 @@ fn main() {
         Ctx::replay_and_exit(&args, level, "E3", |ctx, case| {
             let cfg = WorldCfg::from_json(&case["world"]);
             let events: Vec<Ev> = case["events"].as_array().unwrap().iter().map(|e| Ev::parse(e.as_str().unwrap()).unwrap()).collect();
+            if case["settle"] == json!(false) {
+                for rep in 0..50 {
+                    let o = run_history_nosettle(&cfg, &events);
+                    if rep == 0 || o.machinery.is_some() {
+                        println!("  nosettle run {rep}: machinery={:?} trace={}", o.machinery, json!(o.trace));
+                    }
+                    for f in &o.failures {
+                        ctx.report(Violation { sig: json!({"kind": f.kind, "settle": false}), case: case.clone(), expected: f.expected.clone(), observed: f.observed.clone() });
+                    }
+                    if !o.failures.is_empty() {
+                        break;
+                    }
+                }
+                return;
+            }
             let o = run_history(&cfg, &events, window(tier));
             for t in &o.trace {
                 println!("  {t}");
@@ -145,6 +160,37 @@ fn main() {
     if c17 {
         worlds.push(json!({"world": "1 client (Gate / GateDrop), both modes", "exploration": "long hold: Connect, Send, Shutdown, 6.5 s during which close() must stay pending, then Release, Read", "histories": long_hold.0}));
     }
+    // thorough: the K<=2 histories again with their events fired back to back (no settling)
+    let mut nosettle = json!(null);
+    if ctx.tier == Tier::Thorough {
+        let mut runs = 0u64;
+        for mode in modes {
+            for kinds in [vec![Kind::Gate], vec![Kind::GateDrop], vec![Kind::Gate, Kind::Gate]] {
+                let cfg = WorldCfg { mode, rt: RtKind::MultiThread(2), kinds: kinds.clone(), with_shutdown: c17, with_half: kinds.len() == 1 };
+                let (hist, _) = all_paths(&cfg, 20000);
+                let counter = std::sync::atomic::AtomicU64::new(0);
+                par_for(hist.len(), 8, ctx.seed, |i| {
+                    if ctx.elapsed() > budget + 300.0 {
+                        return;
+                    }
+                    for _rep in 0..2 {
+                        let o = run_history_nosettle(&cfg, &hist[i]);
+                        counter.fetch_add(1, std::sync::atomic::Ordering::Relaxed);
+                        for f in &o.failures {
+                            ctx.report(Violation {
+                                sig: json!({"kind": f.kind, "mode": format!("{:?}", cfg.mode), "settle": false}),
+                                case: json!({"kind":"history","world": cfg.to_json(), "events": hist[i].iter().map(|e| e.render()).collect::<Vec<_>>(), "settle": false}),
+                                expected: f.expected.clone(),
+                                observed: json!({"observed": f.observed, "trace": o.trace}),
+                            });
+                        }
+                    }
+                });
+                runs += counter.load(std::sync::atomic::Ordering::Relaxed);
+            }
+        }
+        nosettle = json!({"runs": runs, "note": "events fired back to back; only schedule-independent safety invariants are judged; not exhaustive over schedules"});
+    }
     let h2 = if !c17 { vh::h2slice::run(&ctx, &samples) } else { json!(null) };
     if mach > 0 && histories == 0 {
         machinery_failure("no history could be executed");
@@ -158,6 +204,7 @@ fn main() {
         "rule": "state = the harness's script state (per client: phase New/Connected/HalfSent/Sent/Released/Responded, closed?, gate released?; shutdown requested?; waiters); transition = one harness-owned event (Connect, SendHalf, Send, Release, Read, Close(FIN), Reset(RST), Shutdown, Waiter) fired at a real server started fresh for every history and run to quiescence; every history is extended by a canonical tail (release, read, close clients, release remaining gates, shut down) so every execution runs to completion. Invariants (handler board, responses, health probe, close() pending/returned, waiters, listening socket) are evaluated after every event. distinct_nontrivial = distinct observed board-trace vectors.",
         "worlds": worlds,
         "http2_slice": h2,
+        "nosettle_runs": nosettle,
         "degraded_sync": degraded,
         "machinery_errors": mach,
         "caps_hit": caps,
